@@ -13,7 +13,16 @@ use std::cell::RefCell;
 
 pub const NSLOTS: usize = 8;
 
-pub type HelperObserver = Box<dyn FnMut(u32, [u64; 5], u64)>;
+/// (id, arguments, returned value, bytes written: (address, bytes))
+pub type HelperObserver = Box<dyn FnMut(u32, [u64; 5], u64, &[(u64, Vec<u8>)])>;
+pub const POKE_MAGIC: u64 = 0x706f_6b65;
+thread_local! {
+    /// the buffers of the running case a "poke" may write into: (base, length)
+    static POKE_OK: RefCell<Vec<(u64, usize)>> = const { RefCell::new(Vec::new()) };
+}
+pub fn set_poke_ranges(v: Vec<(u64, usize)>) {
+    POKE_OK.with(|c| *c.borrow_mut() = v);
+}
 thread_local! {
     static OBSERVER: RefCell<Option<HelperObserver>> = const { RefCell::new(None) };
 }
@@ -61,9 +70,23 @@ fn helper_body(slot: usize, a: [u64; 5]) -> u64 {
         .wrapping_add(a[3].wrapping_mul(5))
         .wrapping_add(a[4].wrapping_mul(7))
         .wrapping_add(id as u64);
+    // the specification's ModelHelperWrites: a3 = "poke", a4 = n in 1..8: store the low n bytes of
+    // a2 at a1 (only inside a buffer of the running case: the harness never writes anywhere else)
+    let mut wr: Vec<(u64, Vec<u8>)> = Vec::new();
+    if a[2] == POKE_MAGIC && (1..=8).contains(&a[3]) {
+        let n = a[3] as usize;
+        let inside = POKE_OK.with(|c| {
+            c.borrow().iter().any(|(b, l)| a[0] >= *b && a[0].wrapping_sub(*b) as usize + n <= *l && a[0].checked_add(n as u64).is_some())
+        });
+        if inside {
+            let bytes = a[1].to_le_bytes()[..n].to_vec();
+            unsafe { std::ptr::copy_nonoverlapping(bytes.as_ptr(), a[0] as *mut u8, n) };
+            wr.push((a[0], bytes));
+        }
+    }
     OBSERVER.with(|o| {
         if let Some(f) = o.borrow_mut().as_mut() {
-            f(id, a, ret);
+            f(id, a, ret, &wr);
         }
     });
     scrub_caller_saved();
@@ -309,6 +332,9 @@ fn run_case_inner(case: &Value, engine: &str, own_hook: bool) -> Value {
     for a in &allow {
         vm.register_allowed_memory(a.base..a.base + a.len as u64);
     }
+    set_poke_ranges(
+        [&pkt, &mbuf].into_iter().chain(allow.iter()).filter(|b| b.len > 0).map(|b| (b.base, b.len)).collect(),
+    );
     if case["calc"].as_bool().unwrap_or(false) {
         let f = Fsz {
             dflt: case["fsz"]["dflt"].as_u64().unwrap() as u16,
